@@ -90,6 +90,8 @@ def model_check(ctx: Ctx, npoints: int, with_import: bool, strict_parts: list[st
                      ctx.scratch, workers=4, timeout=900, heap="1g")
         expect_violation(r2, part, f"as-built model must violate {part}")
         ctx.add_tlc(r2)
+    if ctx.quick:
+        return table
     # all repairs: strict contract holds
     r3 = run_tlc("cache/Backend.tla",
                  cfg_text("11111", npoints, with_import, invariants=["TypeOK", "GhostMerkle", "Strict"]),
@@ -97,7 +99,7 @@ def model_check(ctx: Ctx, npoints: int, with_import: bool, strict_parts: list[st
     expect_clean(r3, "Backend.tla with all five repairs: strict contract")
     ctx.add_tlc(r3)
     ctx.note("model_states_repaired", r3.distinct)
-    if not ctx.quick:
+    if True:
         needed = {}
         for i, name in enumerate(FIXES):
             fx = "".join("0" if j == i else "1" for j in range(5))
